@@ -2,8 +2,8 @@
 EXTENDS Spelling, Json
 MC_Kinds == {"int", "real", "name", "lit", "hex", "bool", "null", "ref"}
 MC_NVar == ("int" :> 6) @@ ("real" :> 8) @@ ("name" :> 8) @@ ("lit" :> 12) @@ ("hex" :> 6) @@ ("bool" :> 2) @@ ("null" :> 1) @@ ("ref" :> 3)
-MC_Seps == {"sp", "tab", "lf", "cr", "crlf", "ff", "nul", "comment-lf", "comment-cr", "two"}
-MC_SepsQ == {"sp", "lf", "cr", "ff", "comment-cr"}
+MC_Seps == {"sp", "tab", "lf", "cr", "crlf", "ff", "nul", "comment-lf", "comment-cr", "two", "comments2", "comments3"}
+MC_SepsQ == {"sp", "lf", "cr", "ff", "comment-cr", "comments2"}
 CaseJson == [shape |-> shape, items |-> items, seps |-> seps, ctx |-> ctx]
 Emit == PrintT(<<"CASE", ToJson(CaseJson)>>)
 =============================================================================
